@@ -241,8 +241,11 @@ def check_clique_vector(ctx):
                     and isinstance(s.value, ast.Name) and s.value.id in fi.params]
             uses_params = any(isinstance(x, ast.Name) and x.id in fi.params[:2] for b in body for x in ast.walk(b)) \
                 or any(isinstance(x, ast.Name) and x.id in fi.params[:2] for x in ast.walk(g.iter))
-            if not uses_params or not subs:
-                continue        # nothing is taken from self/other by key in this expression
+            iter_params = any(isinstance(x, ast.Name) and x.id in fi.params[:2] for x in ast.walk(g.iter))
+            if not uses_params or not (subs or iter_params):
+                continue        # nothing is taken from self/other in this expression
+            if not subs and not isinstance(comp, ast.DictComp) and not iter_params:
+                continue
             n += 1
             it = U(g.iter)
             if isinstance(g.target, ast.Name) and it in ('self', 'self.keys()'):
